@@ -71,7 +71,7 @@ static Verdict verify_mitm(Instance &I, const Base &B, const LineMut &m) {
 	auto held = std::make_shared<std::string>(); auto div = std::make_shared<bool>(false);
 	const std::vector<std::string> *pl = &B.pl; LineMut mm = m;
 	o.relayP = [pl, mm, held, div](size_t idx, const std::string &t) -> std::vector<std::string> {
-		if (idx <= mm.k + 1 && idx < pl->size() && (*pl)[idx] != t && idx <= mm.k) *div = true;
+		if (idx <= mm.k && idx < pl->size() && (*pl)[idx] != t) *div = true;     // the honest part of the run must repeat the recorded one
 		if (idx == mm.k) {
 			if (mm.op == LineMut::REPL) return {mm.text};
 			if (mm.op == LineMut::DEL) return {};
@@ -131,8 +131,8 @@ int main(int argc, char **argv) {
 		bool isD = worlds[wi].ps == &PS_D;
 		if (f.family == "qr" && !(wi == 0 || isD)) continue;                // QR encoding does not depend on the dlog group
 		if (f.name == "rabin/key-nizk" && wi != 0) continue;
-		// quick: sized protocols in one S world (rotating with the seed) and in the G world; the rest everywhere
-		if (quick && f.sized && f.family == "dlog" && wi < 3 && (fi + ctx.seed) % 3 != wi) continue;
+		// quick: sized protocols in one world (rotating with the seed and the protocol index); the rest in every world
+		if (quick && f.sized && f.family == "dlog" && (fi + ctx.seed) % worlds.size() != wi) continue;
 		if (isD && !(fi % 5 == ctx.seed % 5)) continue;                     // default sizes: sampled
 		if (!only_proto.empty() && f.name != only_proto) { continue; }
 		std::vector<size_t> ns = f.sized ? (f.family == "qr" ? qr_sizes : sizes) : std::vector<size_t>{0};
@@ -238,18 +238,29 @@ int main(int argc, char **argv) {
 			if (blk == 0 && f.name != "rabin/key-nizk") {
 				Alt *&A = acache[(int)wi]; if (!A) A = new Alt(*W, ctx.seed);
 				for (const std::string &ak : alt_kinds(f.name)) {
-					World *V0 = A->view("identity", n), *V1 = A->view(ak, n);
+					World *V0 = A->view("identity", n), *V1 = ak == "key:other-rabin" ? V0 : A->view(ak, n);
 					if (!V1) { count("alt_unavailable/" + ak); continue; }
-					std::unique_ptr<Instance> I0(make(*V0)), I1(make(*V1));
-					bool same = I0->pub.size() == I1->pub.size(); for (size_t h = 0; same && h < I0->pub.size(); h++) if (mpz_cmp(I0->pub[h].v, I1->pub[h].v)) same = false;
+					std::unique_ptr<Instance> I0(make(*V0));
 					Base B0 = baseline(*I0, sa, sb + 7);
 					count("alt_baselines"); if (!B0.ok) { count("alt_baseline_rejected"); violation("C05/baseline-rejected/" + f.name, "honest run through an identity verifier view was not accepted", J().kv("case", desc).str()); continue; }
-					if (!same) count("alt_statement_differs");
-					RunResult R = run(*I1, sa, sb + 7);
-					Verdict V; V.accepted = R.ok; V.exc = R.v_exc; V.eof = R.eof; note(V);
+					Verdict V; bool same = true; std::string variant = I0->variant;
+					if (ak == "key:other-rabin") {
+						// prover and verifier closures of the QR instances share the ring: the recorded honest run is replayed
+						// against the same verifier closure while the view's ring pointer designates the alternative ring
+						TMCG_PublicKeyRing *orig = V0->ring; V0->ring = A->alt_ring();
+						try { V = verify_replay(*I0, B0); } catch (...) { V0->ring = orig; throw; }
+						V0->ring = orig;
+					} else {
+						std::unique_ptr<Instance> I1(make(*V1));
+						same = I0->pub.size() == I1->pub.size(); for (size_t h = 0; same && h < I0->pub.size(); h++) if (mpz_cmp(I0->pub[h].v, I1->pub[h].v)) same = false;
+						if (!same) count("alt_statement_differs");
+						RunResult R = run(*I1, sa, sb + 7);
+						V.accepted = R.ok; V.exc = R.v_exc; V.eof = R.eof;
+					}
+					note(V);
 					judged++; count("judged_alt_runs"); count("altcov/" + f.name + "/" + ak); count("alt/" + ak); distinct.insert("A/" + ak);
 					if (V.accepted) {
-						J w; w.kv("world", worlds[wi].tag).kv("proto", f.name).kv("variant", I1->variant).kv("n", (long long)n).kv("verifier_object", ak).kv("what", A->describe(ak)).kv("same_statement", same).kv("seed_a", (unsigned long long)sa).kv("seed_b", (unsigned long long)(sb + 7));
+						J w; w.kv("world", worlds[wi].tag).kv("proto", f.name).kv("variant", variant).kv("n", (long long)n).kv("verifier_object", ak).kv("what", A->describe(ak)).kv("same_statement", same).kv("seed_a", (unsigned long long)sa).kv("seed_b", (unsigned long long)(sb + 7));
 						report("verifier-object", ak, "the verifier's " + ak, w);
 					}
 				}
